@@ -46,7 +46,7 @@ func reentrantRule(p *load.Program, s *oblig.Set) {
 		}
 	}
 	sort.Slice(fns, func(i, j int) bool { return fns[i].String() < fns[j].String() })
-	if len(fns) < 15 {
+	if len(fns) < 5 {
 		s.Unk("X11", "closures scanned", "-", fmt.Sprintf("only %d closures of packages combinator and parser found", len(fns)))
 		return
 	}
